@@ -21,10 +21,24 @@ from .c05 import seeds
 def _largest_k_indices(t, heights, k):
     """recognise 'indices of the k largest heights': argpartition(-h, k)[:k] | argsort(h)[::-1][:k] | argsort(-h)[:k]
        returns True / False (recognised but wrong) / None"""
+    neg_h = T.p_neg(heights)
+    if t[0] == "slice" and t[3] == T.NONE and t[4] == T.NONE and t[2] == T.p_neg(k):
+        # xs[-k:]  : the last k of an ascending arrangement
+        base = t[1]
+        if base[0] == "call" and base[1].endswith("argsort") and len(base[2]) == 1:
+            return base[2][0] == heights
+        if base[0] == "call" and base[1].endswith("argpartition") and len(base[2]) == 2:
+            arr, kth = base[2]
+            size = None
+            if arr == heights:
+                # correct only when the pivot is size - k (or -k): everything right of it is >= everything left of it
+                return kth == T.p_neg(k) or (kth[0] == "poly" and T.p_add(kth, k)[0] in ("attr", "call"))
+            if arr == neg_h:
+                return False
+        return None
     if t[0] != "slice" or t[2] != T.NONE or t[4] != T.NONE:
         return None
     upto, base = t[3], t[1]
-    neg_h = T.p_neg(heights)
     if base[0] == "call" and base[1].endswith("argpartition") and len(base[2]) == 2:
         arr, kth = base[2]
         if arr == neg_h:
